@@ -117,6 +117,8 @@ Lemma consistency_resume s o (h : hello blob) s' o' :
 Proof.
   unfold consistency, hello_consistent.
   destruct (zmem (s_suite s) (h_suites h)) eqn:E1; cbn [negb]; [|discriminate].
+  destruct (nz (h_srp h) && negb (nz (s_srp s)) && match o with ByTicket _ | ByBoth _ => true | _ => false end);
+    [discriminate|].
   destruct (nz (h_srp h) && (negb (nz (s_srp s)) || negb (h_srp h =? s_srp s))) eqn:E2; [discriminate|].
   destruct (nz (h_sni h) && (negb (nz (s_sni s)) || negb (h_sni h =? s_sni s))) eqn:E3; [discriminate|].
   destruct (s_etm s && negb (h_etm h)) eqn:E4; [discriminate|].
@@ -130,6 +132,20 @@ Proof.
     apply orb_false_iff in E3. destruct E3 as [_ B]. apply negb_false_iff, Z.eqb_eq in B. symmetry. exact B.
   - intros He. rewrite He in E4. cbn [andb] in E4. apply negb_false_iff in E4. exact E4.
   - destruct (s_ems s), (h_ems h); cbn in E5, E6; try reflexivity; discriminate.
+Qed.
+
+Lemma consistency_complete s o (h : hello blob) :
+  hello_consistent s h -> consistency blob s o h = SResume s o.
+Proof.
+  intros [C1 [C2 [C3 [C4 C5]]]]. unfold consistency. rewrite C1. cbn [negb].
+  assert (nz (h_srp h) = true -> nz (s_srp s) = true /\ (h_srp h =? s_srp s) = true) as S.
+  { intros N. apply nz_true in N. specialize (C2 N). split; [apply nz_true; congruence|apply Z.eqb_eq; congruence]. }
+  assert (nz (h_sni h) = true -> nz (s_sni s) = true /\ (h_sni h =? s_sni s) = true) as N.
+  { intros N. apply nz_true in N. specialize (C3 N). split; [apply nz_true; congruence|apply Z.eqb_eq; congruence]. }
+  destruct (nz (h_srp h)); [destruct (S eq_refl) as [-> ->]|]; cbn [negb andb orb];
+    (destruct (nz (h_sni h)); [destruct (N eq_refl) as [-> ->]|]); cbn [negb andb orb];
+    rewrite C5; destruct (s_etm s) eqn:E; try rewrite (C4 eq_refl); destruct (h_ems h), (h_etm h); cbn; try reflexivity;
+    specialize (C4 eq_refl); discriminate.
 Qed.
 
 (* ---- the TLS <= 1.2 acceptance decision: everything it implies ------------------ *)
